@@ -225,3 +225,14 @@ func (k *Kit) SafeAdd(blk *types.Block) (err error) {
 	}()
 	return k.Add(blk)
 }
+
+// SafeClose is Close with panics turned into errors (StateStore.Close dereferences a nil hash store when persistence was
+// disabled at open).
+func (k *Kit) SafeClose() (err error) {
+	defer func() {
+		if e := recover(); e != nil {
+			err = fmt.Errorf("panic: %v", e)
+		}
+	}()
+	return k.Close()
+}
